@@ -398,4 +398,74 @@ def r16_8(ctx):
             raise AnalysisError(f"_Line.expand: closing-line suffix `{v}` mixes self.suffix with other terms; not decided")
 
 
-RULES = [r16_1, r16_2, r16_3, r16_4, r16_5, r16_6, r16_7, r16_8]
+def r16_9(ctx):
+    from .common import units_check
+    ctx.rule("R16.9", "the fits-the-width decisions of the pretty printer are made in terminal cells: in Node.render, Node.check_length and _Line.check_length a quantity compared with (or subtracted from) max_width / max_length is a cell measure (cell_len), never a character count len(..) - a container of double-width text would otherwise be kept on one line that is wider than max_width")
+    m = ctx.repo.mod("pretty")
+    for q, params in (("Node.render", ("max_width",)), ("Node.check_length", ("max_length", "start_length")), ("_Line.check_length", ("max_length",))):
+        f = m.fn(q)
+        have = [p_ for p_ in params if p_ in f.params]
+        if not have:
+            raise AnchorVanished(f"pretty.{q}: width parameter {params} not found")
+        units_check(ctx, f, have, floor=0)
+
+
+_MAPPING_TYPE_NAMES = {"dict": ("dict",), "defaultdict": ("dict",), "Counter": ("dict",), "OrderedDict": ("dict",), "os._Environ": ("os._Environ", "MutableMapping"), "ChainMap": ("ChainMap",), "MappingProxyType": ("MappingProxyType",)}
+
+
+def r16_10(ctx):
+    ctx.rule("R16.10", "every mapping type the printer knows is printed as key: value pairs: the test in traverse() that selects the items() form covers each key of _BRACES that is a mapping (dict, defaultdict, Counter, os._Environ) - either by isinstance against a tuple that contains dict (subclasses included) and os._Environ, or, when it compares the exact type, by a collection that lists every one of them; a mapping walked as a plain sequence prints its keys only (Counter({'a': 2}) -> Counter({'a'}))")
+    m = ctx.repo.mod("pretty")
+    braces = m.module_const("_BRACES")
+    if not isinstance(braces, ast.Dict):
+        raise AnalysisError("pretty._BRACES is not a dict literal")
+    keys = [norm(k) for k in braces.keys]
+    mapping_keys = [k for k in keys if k in _MAPPING_TYPE_NAMES]
+    ctx.floor(len(mapping_keys), 2, "mapping types in _BRACES")
+    f = m.fn("traverse")
+    fam = [f] + [q for k, q in m.functions.items() if k.startswith("traverse.<locals>.")]
+    tests = []
+    for q in fam:
+        for x in walk_local(q.node):
+            if isinstance(x, ast.Call) and isinstance(x.func, ast.Attribute) and x.func.attr == "items" and not x.args:
+                cur = m.parent_of.get(x)
+                while cur is not None and not isinstance(cur, (ast.If, ast.IfExp)):
+                    cur = m.parent_of.get(cur)
+                arms = (cur.body if isinstance(cur, ast.If) else [cur.body]) if cur is not None else []
+                if cur is not None and (q, cur) not in tests and any(x is c for b in arms for c in ast.walk(b)):
+                    tests.append((q, cur))
+    if len(tests) != 1:
+        raise AnalysisError(f"pretty.traverse: expected one `if <mapping test>:` selecting the items() form, found {len(tests)}")
+    q, it = tests[0]
+    from ..astutil import inline as _inl16, single_defs as _sdf16
+    t = _inl16(it.test, _sdf16(q.node))
+    where = f"{m.relpath}:{it.lineno}"
+
+    def members(e):
+        if isinstance(e, ast.Name):
+            v = m.module_const(e.id)
+            return members(v) if v is not None else None
+        if isinstance(e, (ast.Tuple, ast.List, ast.Set)):
+            return [norm(x) for x in e.elts]
+        if isinstance(e, ast.Call) and norm(e.func) in ("frozenset", "set", "tuple") and len(e.args) == 1:
+            return members(e.args[0])
+        return None
+    if isinstance(t, ast.Call) and norm(t.func) == "isinstance" and len(t.args) == 2:
+        mem = members(t.args[1])
+        if mem is None:
+            raise AnalysisError(f"pretty.traverse: cannot read the types in `{short(t)}`")
+        missing = [k for k in mapping_keys if not any(b in mem for b in _MAPPING_TYPE_NAMES[k]) and k not in mem]
+        ctx.check(not missing, q.fq, short(t), where, "isinstance test covers every mapping type of _BRACES (dict subclasses through dict)",
+                  f"`{short(t)}` does not cover {missing}: these mappings are traversed as sequences and print their keys only")
+    elif isinstance(t, ast.Compare) and len(t.ops) == 1 and isinstance(t.ops[0], ast.In):
+        mem = members(t.comparators[0])
+        if mem is None:
+            raise AnalysisError(f"pretty.traverse: cannot read the types in `{short(t)}`")
+        missing = [k for k in mapping_keys if k not in mem]
+        ctx.check(not missing, q.fq, short(t), where, "exact-type test lists every mapping type of _BRACES",
+                  f"`{short(t)}` compares the exact type but does not list {missing}: Counter({{'a': 2, 'b': 1}}) is walked as a sequence and prints as Counter({{'a', 'b'}}), which evaluates back with the counts lost")
+    else:
+        raise AnalysisError(f"pretty.traverse: mapping test `{short(t)}` is neither isinstance(..) nor `type in <collection>`")
+
+
+RULES = [r16_1, r16_2, r16_3, r16_4, r16_5, r16_6, r16_7, r16_8, r16_9, r16_10]
